@@ -54,6 +54,14 @@ def points(t, rng, n):
     return pts
 
 
+def big_pick(rng, big):
+    """sample of a large batch that is judged like any other event: both ends, around every multiple of 4096, random ones"""
+    pick = set(range(6)) | set(range(big - 12, big)) | set(int(i) for i in rng.integers(0, big, 60))
+    for kk in range(4096, big, 4096):
+        pick |= {kk - 1, kk}
+    return sorted(pick)
+
+
 def c04_events(version, n, seed):
     use_repo()
     from nuspacesim.utils.cdf import grid_cdf_sampler
@@ -87,6 +95,21 @@ def c04_events(version, n, seed):
     for i in range(len(z)):
         events.append({"kind": "z", "e": bits(es[i]), "b": bits(bs[i]), "u": bits(us[i]), "z": bits(z[i]), "grp": int(grp[i]),
                        "_m": {"ver": version, "e": es[i], "b": bs[i], "u": us[i], "z": float(z[i])}})
+    # ---- ONE call with more events than any internal block size (2**16), not a multiple of it, angles inside / below / above the table mixed
+    big = 70001
+    Bb = rng.uniform(0.0, B[-1] * 1.15, big)
+    Eb = rng.uniform(6.0, 12.0, big)
+    Ub = rng.uniform(1e-6, 1 - 1e-6, big)
+    try:
+        Etb = np.asarray(taus.tau_energy(Bb.copy(), Eb.copy(), Ub.copy()), dtype=float)
+        if Etb.shape != (big,):
+            raise ValueError(f"result shape {Etb.shape}")
+        errb = None
+    except Exception as ex:
+        Etb, errb = np.full(big, np.nan), repr(ex)[:200]
+    for i in big_pick(rng, big):
+        events.append({"kind": "etau", "e": bits(Eb[i]), "b": bits(Bb[i]), "u": bits(Ub[i]), "E": bits(Etb[i]),
+                       "_m": {"ver": version, "e": Eb[i], "b": Bb[i], "u": Ub[i], "E": float(Etb[i]), "batch": big, "index": i, "error": errb}})
     # ---- tau_energy with a mix of in-range and out-of-range angles
     m = max(8, n // 3)
     pe = rng.uniform(6.0, 12.0, m)
@@ -336,6 +359,20 @@ def c05_events(version, n, seed, all_nodes=True):
         if p2[i] != p[i]:
             events.append({"kind": "pexit", "e": bits(es[i]), "b": bits(bs[i]), "p": bits(p2[i]),
                            "_m": {"ver": version, "e": es[i], "b": bs[i], "p": float(p2[i]), "second_call": True}})
+    # ONE call with more events than any internal block size (2**16), not a multiple of it
+    big = 70001
+    Bb = rng.uniform(0.0, B[-1] * 1.15, big)
+    Eb = rng.uniform(6.0, 12.0, big)
+    try:
+        Pb = np.asarray(taus.tau_exit_prob(Bb.copy(), Eb.copy()), dtype=float)
+        if Pb.shape != (big,):
+            raise ValueError(f"result shape {Pb.shape}")
+        errb = None
+    except Exception as ex:
+        Pb, errb = np.full(big, np.nan), repr(ex)[:200]
+    for i in big_pick(rng, big):
+        events.append({"kind": "pexit", "e": bits(Eb[i]), "b": bits(Bb[i]), "p": bits(Pb[i]),
+                       "_m": {"ver": version, "e": Eb[i], "b": Bb[i], "p": float(Pb[i]), "batch": big, "index": i, "error": errb}})
     k2 = 12
     fb = rng.uniform(0.0, B[-1], k2)
     fe = rng.uniform(6.0, 12.0, k2)
